@@ -61,7 +61,11 @@ def run(tier):
                "LESS": None}
         args = ["--no-gitconfig", "--width", "80"]
         stdin = b""
-        if sc["mode"] == "stdin":
+        if sc["mode"] == "showconfig":
+            args += ["--show-config"]
+        elif sc["mode"] == "version":
+            args = ["--version"]
+        elif sc["mode"] == "stdin":
             stdin = bigdiff if sc["big"] else diff
         elif sc["mode"] == "diff" and sc["how"] == "samepath":
             missing = os.path.join(work, "does-not-exist")
